@@ -77,6 +77,8 @@ def gen_for(rng, pname):
 def materialise(inst, v):
     if v is BLANK or v == BLANK:
         return inst.EmptyCell()
+    if isinstance(v, tuple) and v and v[0] == 'crit':
+        return inst._criterion(materialise(inst, v[1]))
     if isinstance(v, tuple) and v and v[0] == 'lambda':
         val, fails = materialise(inst, v[1]), v[2]
         if fails:
@@ -143,6 +145,21 @@ def run(tier, seed):
         rounds = base * (10 if suspect else 1)
         for _ in range(rounds):
             spec = []
+            if n in ('_sumifs', '_countifs', '_averageifs') and rng.random() < 0.7:
+                # aligned columns and criteria built by the instance's own _criterion: (target, range, criterion, range, criterion, …)
+                h = rng.randint(1, 5)
+                column = lambda pool: [[rng.choice(pool)] for _ in range(h)]
+                spec = [column([1, 2, 4, 8, 2.5, '16', BLANK])]
+                for _ in range(rng.randint(1, 2)):
+                    spec.append(column([1, 0, True, False, 2, 'x', 'apple', BLANK, 1.0, '1']))
+                    spec.append(('crit', rng.choice([1, 0, True, False, '>0', '<>1', 'x', '=TRUE', 'apple', '<2', ''])))
+                ra, rb = out(fa_, *materialise(a, spec)), out(fb_, *materialise(b, spec))
+                chk.count('helper:' + n)
+                chk.seen((n, repr(spec)))
+                if ra != rb:
+                    chk.violation({'why': 'same-named helpers of the generated class and of the abstract base class return different results', 'helper': n,
+                                   'args': repr(spec)[:300], 'generated': ra[:200], 'abstract': rb[:200], 'stream': 'differential', 'fn': n})
+                continue
             for p in params:
                 if p.kind in (p.VAR_POSITIONAL, p.VAR_KEYWORD):
                     continue
